@@ -100,8 +100,12 @@ fn gen_spec(rng: &mut Rng, fam: usize, res: &str, id: String, invalid: bool) -> 
                 capacity: *rng.pick(&[0usize, 0, 100]),
                 specific: if rng.chance(1, 3) { vec![("a".to_string(), rng.range(1, 5))] } else { vec![] },
             };
-            s.burst = if s.ctrl == 0 { *rng.pick(&[0u64, 0, 2]) } else { 0 };
-            s.max_queue_ms = if s.ctrl == 1 { *rng.pick(&[0u64, 0, 100]) } else { 0 };
+            if rng.chance(1, 8) {
+                // a registered custom control strategy
+                s.ctrl = CUSTOM_HOT;
+            }
+            s.burst = if s.ctrl != 1 { *rng.pick(&[0u64, 0, 2]) } else { 0 };
+            s.max_queue_ms = if s.ctrl != 0 { *rng.pick(&[0u64, 0, 100]) } else { 0 };
             if invalid {
                 if rng.chance(1, 2) {
                     s.metric = 1;
@@ -150,9 +154,28 @@ fn gen_spec(rng: &mut Rng, fam: usize, res: &str, id: String, invalid: bool) -> 
     }
 }
 
+/// control strategy number of the custom hotspot strategy registered for C10 (a plain reject controller)
+pub const CUSTOM_HOT: u8 = 101;
+
 impl Prop for C10 {
     fn id(&self) -> &'static str {
         "C10"
+    }
+    fn extra_warm_up(&self) {
+        use sentinel_core::hotspot;
+        use std::sync::{Arc, Mutex};
+        // a user-registered hotspot strategy: rules that name it are as valid as the built-in ones
+        let _ = hotspot::set_traffic_shaping_generator(
+            hotspot::ControlStrategy::Custom(CUSTOM_HOT),
+            Box::new(|rule: Arc<hotspot::Rule>, _m: Option<Arc<hotspot::ParamsMetric>>| {
+                let checker: Arc<Mutex<dyn hotspot::Checker>> = Arc::new(Mutex::new(hotspot::RejectChecker::<hotspot::Counter>::new()));
+                let mut tsc = hotspot::Controller::new(rule);
+                tsc.set_checker(Arc::clone(&checker));
+                let tsc = Arc::new(tsc);
+                checker.lock().unwrap().set_owner(Arc::downgrade(&tsc));
+                tsc
+            }),
+        );
     }
     fn gap_ns(&self) -> u64 {
         3_600 * SEC
@@ -165,7 +188,7 @@ impl Prop for C10 {
         }
     }
     fn rule_text(&self) -> &'static str {
-        "seeded scenarios per family (flow, circuit breaker, hotspot, isolation, system): a pool of valid, invalid and equal-but-differently-identified rules on 2-3 resources and a history of <= 12 operations over load-all / load-for-resource / append / clear / clear-for-resource; after every operation get_rules, get_rules_of_resource and the live controller/breaker lists are compared (as sets under rule equality) with a reference map, for flow and isolation additionally the enforced minimum threshold is measured behaviourally; return values asserted for duplicate-free calls; every call under catch_unwind followed by a health probe. Non-trivial = history contains a replacement and an append after which >= 2 rules are active on one resource; distinct = distinct trace hash."
+        "seeded scenarios per family (flow, circuit breaker, hotspot, isolation, system): a pool of valid, invalid, equal-but-differently-identified, edited-with-the-same-id and nearest-neighbour (threshold one representable value apart) rules, hotspot rules also with a registered custom control strategy, on 2-3 resources and a history of <= 12 operations over load-all / load-for-resource / append / clear / clear-for-resource; after every operation get_rules, get_rules_of_resource and the live controller/breaker lists are compared (as sets under rule equality) with a reference map, for flow and isolation additionally the enforced minimum threshold is measured behaviourally; return values asserted for duplicate-free calls; every call under catch_unwind followed by a health probe. Non-trivial = history contains a replacement and an append after which >= 2 rules are active on one resource; distinct = distinct trace hash."
     }
     fn components(&self) -> Value {
         json!({"real": ["sentinel-core: the five rule managers, controller/breaker builders, EntryBuilder + slot chain for the behavioural probes"],
